@@ -282,14 +282,16 @@ func checkReloadClearsCache(c *core.Ctx) {
 			if constNameOf(info, l) == "OpcodeMemoryGrow" {
 				found = true
 				calls := false
-				ast.Inspect(cc, func(y ast.Node) bool {
-					if call, ok := y.(*ast.CallExpr); ok {
-						if f := core.Callee(info, call); f != nil && (f.Name() == reload.Name() || f.Name() == "reloadAfterCall") {
-							calls = true
+				for _, sn := range armScope(p, cc) { // the arm, or the method it hands the lowering to
+					ast.Inspect(sn, func(y ast.Node) bool {
+						if call, ok := y.(*ast.CallExpr); ok {
+							if f := core.Callee(info, call); f != nil && (f.Name() == reload.Name() || f.Name() == "reloadAfterCall") {
+								calls = true
+							}
 						}
-					}
-					return true
-				})
+						return true
+					})
+				}
 				c.Check(calls, "R02.2", "memory.grow arm reloads base and length", cc.Pos(), "calls the reload helper", "the memory.grow arm does not reload the memory base/length: later accesses use the buffer and size from before the growth")
 			}
 		}
